@@ -33,14 +33,21 @@ def h_categorical(ctx, k, N, n_nan, pipeline, props):
     mf = ctx.real("min_freq")
     ctx.assume(mf > 0)
     ctx.assume(mf <= 0.5)
+    numeric = pipeline.endswith("_numeric")
+    if numeric:
+        # ordinal feature whose values are numbers while the ranking is given as strings (StringDiscretizer path,
+        # the only caller of GroupedList.update)
+        num_of = {c: i + 1 for i, c in enumerate(cats)}
+        col = [num_of[v] if isinstance(v, str) else v for v in col]
+        cats = [str(num_of[c]) for c in cats]
     X = pd.DataFrame({"f": pd.Series(col, dtype=object)})
     y = pd.Series(ycol)
-    ordinal = pipeline.endswith("_ordinal")
+    ordinal = pipeline.endswith("_ordinal") or numeric
     if pipeline == "categorical":
         d = CategoricalDiscretizer(["f"], min_freq=mf, copy=True, verbose=False)
     elif pipeline == "qualitative":
         d = QualitativeDiscretizer(["f"], min_freq=mf, copy=True, verbose=False)
-    elif pipeline == "qualitative_ordinal":
+    elif pipeline in ("qualitative_ordinal", "qualitative_ordinal_numeric"):
         d = QualitativeDiscretizer([], min_freq=mf, ordinal_features=["f"], values_orders={"f": list(cats)}, copy=True, verbose=False)
     elif pipeline == "discretizer_ordinal":
         from AutoCarver.discretizers import Discretizer
@@ -73,7 +80,18 @@ def h_categorical(ctx, k, N, n_nan, pipeline, props):
         ctx.require(out["f"].equals(x_before["f"]) or list(out["f"].astype(str)) == list(x_before["f"].astype(str)), "C08.dropped-feature-touched", "a dropped feature's column was modified by transform")
         return dict(counters={"dropped": 1}, sample=dict(sizes=sizes, outcome="dropped"), result=dict(outcome="dropped"))
     if ordinal:
-        return dict(counters={"ok": 1}, sample=dict(sizes=sizes, pipeline=pipeline), result=dict(n=len(d.values_orders["f"])))
+        vo = d.values_orders["f"]
+        allv = vo.values()
+        for c in cats:
+            ctx.require(c in allv, "C08.coverage", f"{pipeline}: ranking value {c!r} missing from values_orders {dict(vo.content)}")
+        if numeric:
+            out = d.transform(X)
+            for v, o in zip(col, list(out["f"])):
+                if isinstance(v, float) and v != v:
+                    continue
+                ctx.require(v in allv and vo.get_group(v) == vo.get_group(str(v)), "C04.string-form", f"{pipeline}: number {v!r} is not grouped with its string form: {dict(vo.content)}")
+                ctx.require(o == d.labels_per_values["f"][str(v)], "C04.string-form", f"{pipeline}: number {v!r} transformed to {o!r}, its string form's label is {d.labels_per_values['f'][str(v)]!r}")
+        return dict(counters={"ok": 1}, sample=dict(sizes=sizes, pipeline=pipeline), result=dict(n=len(vo)))
     vo = d.values_orders["f"]
     groups = {l: list(vo.content[l]) for l in vo}
     # ---- C09: a value is in the default group iff it is rarer than min_freq; NaN separate
@@ -107,7 +125,7 @@ def obligation(tier, props, name):
             if N < k:
                 continue
             for n_nan in (0, 2):
-                for pipeline in ("categorical", "qualitative") + (("qualitative_ordinal", "discretizer_ordinal", "discretizer") if "C08" in props else ()):
+                for pipeline in ("categorical", "qualitative") + (("qualitative_ordinal", "discretizer_ordinal", "discretizer", "qualitative_ordinal_numeric") if "C08" in props else ()):
                     jobs.append(dict(k=k, N=N, n_nan=n_nan, pipeline=pipeline, props=sorted(props)))
     return Obligation(
         name=name, harness=h_categorical, jobs=jobs,
